@@ -17,7 +17,11 @@ from typing import Any, Dict, List, Optional
 
 ROOT = os.path.dirname(os.path.dirname(os.path.abspath(__file__)))
 EVIDENCE_DIR = os.path.join(ROOT, "evidence")
-if os.environ.get("PYVC_REPO") and os.path.realpath(os.environ["PYVC_REPO"]) != "/repo":
+if os.environ.get("PYVC_EVIDENCE_DIR"):
+    # a sub-run on behalf of another property's check (specs/link.py)
+    EVIDENCE_DIR = os.environ["PYVC_EVIDENCE_DIR"]
+    os.makedirs(EVIDENCE_DIR, exist_ok=True)
+elif os.environ.get("PYVC_REPO") and os.path.realpath(os.environ["PYVC_REPO"]) != "/repo":
     # a run against a scratch copy of the repository (mutation / seeded-change evaluation) is not evidence about /repo
     EVIDENCE_DIR = os.path.join(ROOT, ".cache", "evidence-scratch")
     os.makedirs(EVIDENCE_DIR, exist_ok=True)
